@@ -11,7 +11,7 @@ C04:
   iszero FLD a      eq FLD a b          -> element (0/1) or "loop"
   izp  FLD a r                          -> "opened True|False"
   xor FLD a b       invert FLD qsub a   (qsub = 0: type not lifted)
-  tobits FLD a rbits(0/1 list r0,r1,..) -> "c|b0;b1;.."
+  tobits FLD a rbits(0/1 list r0,r1,..) [l] -> "c|b0;b1;.." (first l bits; default all)
   and FLD a b ra rb     or FLD a b ra rb
   tobitsp p signed(0|1) x l             -> "b0,b1,.."
   liftin FLD q v    outconv FLD q a (-> int or AssertionError)    liftdeg q m     islifted q m t
@@ -100,6 +100,10 @@ def runF {α} (F : Ops α) (c co : Codec α) (cmd : String) (args : List String)
     match c.parse a, parseBits rb with
     | some a, some rb => let o := toBitsBin F a rb; s!"{o.1}|{showElems c o.2}"
     | _, _ => "bad-op"
+  | "tobits", [a, rb, l] =>
+    match c.parse a, parseBits rb, parseNat? l with
+    | some a, some rb, some l => let o := toBitsBin F a rb l; s!"{o.1}|{showElems c o.2}"
+    | _, _, _ => "bad-op"
   | "and", [a, b, ra, rb] =>
     match c.parse a, c.parse b, parseBits ra, parseBits rb with
     | some a, some b, some ra, some rb => c.show_ (and_ F a b ra rb)
